@@ -1,6 +1,8 @@
 import USModel.Scalar
 import USModel.Constraints
 import USModel.Scales
+import USModel.Autograd
+import USModel.Validate
 import USModel.Core
 import USModel.Optim
 import USModel.ScaledParams
